@@ -38,6 +38,9 @@ const SEPS: &[u8] = b" -/:.,T_|;@#";
 const NUMERIC: [char; 7] = ['Y', 'm', 'd', 'H', 'M', 'S', 'f'];
 const EXTRA: [char; 7] = ['j', 'A', 'a', 'B', 'b', 'T', 'z'];
 const SUPPORTED: [char; 14] = ['Y', 'm', 'd', 'H', 'M', 'S', 'f', 'j', 'A', 'a', 'B', 'b', 'T', 'z'];
+/// the three tokens `Format::from_str` knows beyond the fourteen the statement names (audit 3, A2)
+const UNNAMED: [char; 3] = ['w', 'y', 'J'];
+const SEVENTEEN: [char; 17] = ['Y', 'm', 'd', 'H', 'M', 'S', 'f', 'j', 'A', 'a', 'B', 'b', 'T', 'z', 'w', 'y', 'J'];
 
 const YEARS: [i64; 30] = [
     1, 2, 4, 5, 99, 100, 101, 400, 401, 1582, 1600, 1899, 1900, 1901, 1904, 1971, 1972, 1973, 1980, 1999, 2000, 2001, 2016,
@@ -183,6 +186,11 @@ fn shuffle<T>(r: &mut Rng, v: &mut [T]) {
 
 /// all seven numeric tokens in a random order plus 0-2 of `j A a B b T z` at random places
 fn full_tokens(r: &mut Rng) -> Vec<char> {
+    full_tokens_x(r, false)
+}
+
+/// the same; with `unnamed` an extra token is one of `w y J` half of the time
+fn full_tokens_x(r: &mut Rng, unnamed: bool) -> Vec<char> {
     let mut toks: Vec<char> = NUMERIC.to_vec();
     if r.chance(1, 4) {
         // keep the conventional order now and then
@@ -191,7 +199,7 @@ fn full_tokens(r: &mut Rng) -> Vec<char> {
     }
     let k = r.below(3);
     for _ in 0..k {
-        let t = *r.pick(&EXTRA);
+        let t = if unnamed && r.chance(1, 2) { *r.pick(&UNNAMED) } else { *r.pick(&EXTRA) };
         let at = r.below(toks.len() as u64 + 1) as usize;
         toks.insert(at, t);
     }
@@ -200,19 +208,24 @@ fn full_tokens(r: &mut Rng) -> Vec<char> {
 
 /// 1..16 tokens of the supported set, repetitions allowed
 fn any_tokens(r: &mut Rng) -> Vec<char> {
+    any_tokens_x(r, false)
+}
+
+/// the same, drawn from all seventeen tokens when `unnamed`
+fn any_tokens_x(r: &mut Rng, unnamed: bool) -> Vec<char> {
     let k = match r.below(6) {
         0 => 1,
         1 => 16,
         2 => 15,
         _ => 1 + r.below(16) as usize,
     };
-    (0..k).map(|_| *r.pick(&SUPPORTED)).collect()
+    (0..k).map(|_| if unnamed { *r.pick(&SEVENTEEN) } else { *r.pick(&SUPPORTED) }).collect()
 }
 
 /// formats that do not need the Gregorian fields (the second branch of `Formatter::fmt`)
 fn nongreg_tokens(r: &mut Rng) -> Vec<char> {
     let k = 1 + r.below(4) as usize;
-    (0..k).map(|_| *r.pick(&['j', 'T', 'A', 'a', 'j', 'T'])).collect()
+    (0..k).map(|_| *r.pick(&['j', 'T', 'A', 'a', 'j', 'T', 'w', 'J'])).collect()
 }
 
 fn hexfmt(s: &str) -> String {
@@ -235,8 +248,30 @@ fn boundary_block_c19(out: &mut dyn Write) {
         }
         writeln!(out, "const_debug {}", name).unwrap();
     }
-    // every supported token alone and in a pair with a separator, on fixed epochs
-    for t in SUPPORTED.iter() {
+    // every constant with offsets at both ends of the quantifier and across a day / year edge, printed and parsed back
+    for (name, _) in CONSTS.iter() {
+        for off_min in [-(23 * 60 + 59) as i128, -60, -1, 0, 1, 330, 23 * 60 + 59] {
+            for (y, m, d, tod) in [(2015i64, 2i64, 7i64, (11 * 3600 + 22 * 60 + 33) as i128 * SEC + 5), (2023, 12, 31, NPD - SEC), (2024, 1, 1, 0)] {
+                let e = estr(total_of(y, m, d, tod, TimeScale::UTC), TimeScale::UTC);
+                writeln!(out, "format_const {} {} {}", name, e, dstr(off_min * MIN)).unwrap();
+                writeln!(out, "fmt_back_const {} {} {}", name, e, dstr(off_min * MIN)).unwrap();
+            }
+        }
+    }
+    // `%w` next to `%A` in the seconds around midnight of every scale (the weekday of the printed date), `%J` next to `%j`
+    for ts in SCALES.iter() {
+        for (y, m, d) in [(2016i64, 12i64, 31i64), (2017, 1, 1), (1980, 1, 6), (2024, 2, 29)] {
+            for tod in [0i128, 9 * SEC, 20 * SEC, 33 * SEC, 40 * SEC, NPD - 40 * SEC, NPD - 33 * SEC, NPD - 20 * SEC, NPD - 9 * SEC, NPD - 1] {
+                let e = estr(total_of(y, m, d, tod, *ts), *ts);
+                writeln!(out, "format {} {}", hexfmt("%A %w %a"), e).unwrap();
+                writeln!(out, "format {} {}", hexfmt("%w"), e).unwrap();
+                writeln!(out, "format {} {}", hexfmt("%j %J"), e).unwrap();
+                writeln!(out, "format {} {}", hexfmt("%Y %y"), e).unwrap();
+            }
+        }
+    }
+    // every token of the seventeen alone and in a pair with a separator, on fixed epochs
+    for t in SEVENTEEN.iter() {
         for ts in [TimeScale::UTC, TimeScale::TAI, TimeScale::TDB, TimeScale::GPST] {
             let e = estr(total_of(2000, 2, 29, (14 * 3600 + 57 * 60 + 29) as i128 * SEC + 37, ts), ts);
             writeln!(out, "format {} {}", hexfmt(&format!("%{}", t)), e).unwrap();
@@ -275,12 +310,14 @@ pub fn inputs_c19(r: &mut Rng, n: usize, _tier: &str, out: &mut dyn Write) {
         match r.below(40) {
             // ---- output per token: full-date formats, arbitrary formats, formats without Gregorian tokens
             0..=7 => {
-                let toks = full_tokens(r);
+                let unnamed = r.chance(1, 3);
+                let toks = full_tokens_x(r, unnamed);
                 let f = render_format(r, &toks, true, false);
                 emit_format(r, out, &f, ts);
             }
             8..=13 => {
-                let toks = any_tokens(r);
+                let unnamed = r.chance(1, 3);
+                let toks = any_tokens_x(r, unnamed);
                 let f = render_format(r, &toks, true, false);
                 emit_format(r, out, &f, ts);
             }
@@ -299,7 +336,7 @@ pub fn inputs_c19(r: &mut Rng, n: usize, _tier: &str, out: &mut dyn Write) {
             // ---- the predefined constants
             17..=21 => {
                 let (name, _) = *r.pick(&CONSTS);
-                if (name.starts_with("RFC3339") && r.chance(3, 4)) || r.chance(1, 8) {
+                if (name.starts_with("RFC3339") && r.chance(3, 4)) || r.chance(1, 4) {
                     writeln!(out, "format_const {} {} {}", name, epoch_c19(r, ts, true), dstr(pick_offset(r))).unwrap();
                 } else {
                     writeln!(out, "format_const {} {}", name, epoch_c19(r, ts, false)).unwrap();
@@ -309,7 +346,8 @@ pub fn inputs_c19(r: &mut Rng, n: usize, _tier: &str, out: &mut dyn Write) {
             23 => writeln!(out, "to_isoformat {}", epoch_c19(r, ts, false)).unwrap(),
             // ---- Format::from_str
             24 | 25 => {
-                let toks = if r.chance(1, 2) { any_tokens(r) } else { full_tokens(r) };
+                let unnamed = r.chance(1, 3);
+                let toks = if r.chance(1, 2) { any_tokens_x(r, unnamed) } else { full_tokens_x(r, unnamed) };
                 let mut f = render_format(r, &toks, true, false);
                 if r.chance(1, 6) {
                     // optional markers as the predefined constants use them
@@ -319,7 +357,9 @@ pub fn inputs_c19(r: &mut Rng, n: usize, _tier: &str, out: &mut dyn Write) {
             }
             // ---- parse back (UTC epochs; a few in other scales, where only "no panic" is judged)
             26..=37 => {
-                let toks = full_tokens(r);
+                // (one format in eight also carries `%w`, `%y` or `%J`: outside the parse-back clause, tied to the model)
+                let unnamed = r.chance(1, 8);
+                let toks = full_tokens_x(r, unnamed);
                 let f = render_format(r, &toks, false, true);
                 let ts2 = if r.chance(1, 12) { ts } else { TimeScale::UTC };
                 if f.contains("%z") && r.chance(2, 3) {
@@ -362,8 +402,14 @@ pub fn inputs_c19(r: &mut Rng, n: usize, _tier: &str, out: &mut dyn Write) {
                 writeln!(out, "fmt_back {} {}", hexfmt(&f), epoch_c19(r, TimeScale::UTC, false)).unwrap();
             }
             _ => {
+                // the constants with the quantifier's time-zone offsets as well: always printed by RFC3339 (`%z`);
+                // the other constants cannot carry an offset in their text (judged outside the clause, tied to the model)
                 let (name, _) = *r.pick(&CONSTS);
-                writeln!(out, "fmt_back_const {} {}", name, epoch_c19(r, TimeScale::UTC, false)).unwrap();
+                if (name.starts_with("RFC3339") && r.chance(3, 4)) || r.chance(1, 6) {
+                    writeln!(out, "fmt_back_const {} {} {}", name, epoch_c19(r, TimeScale::UTC, true), dstr(pick_offset(r))).unwrap();
+                } else {
+                    writeln!(out, "fmt_back_const {} {}", name, epoch_c19(r, TimeScale::UTC, false)).unwrap();
+                }
             }
         }
     }
@@ -894,8 +940,11 @@ pub fn exec(op: &str, a: &[&str]) -> Option<String> {
         "iso_display" => {
             // Formatter(ISO8601) and the default Display of the same epoch
             let e = s2e(a[0]);
-            let f = fmt_to_string(&Formatter::new(e, consts::ISO8601)).ok()?;
-            Some(format!("ok {} {}", str2hex(&f), str2hex(&format!("{}", e))))
+            // (audit 3, B3) a Display error of the formatter is an answer (`err`), not a malformed line
+            match fmt_to_string(&Formatter::new(e, consts::ISO8601)) {
+                Ok(f) => Some(format!("ok {} {}", str2hex(&f), str2hex(&format!("{}", e)))),
+                Err(_) => Some("err".to_string()),
+            }
         }
         "to_isoformat" => Some(format!("ok {}", str2hex(&s2e(a[0]).to_isoformat()))),
         // ---- C13F
